@@ -8,7 +8,16 @@ import Aiorpcx.C01.Ids
 
     `R` is the type of handler results (opaque).  Encoded lengths are a parameter `encLen`
     (`len(protocol.response_message(result, id))`); `inc` is what is added per entry to the running
-    size (facts), `max` is `max_response_size` (0 = unlimited). -/
+    size (facts).
+
+    `max_response_size` ("a public attribute intended to be settable dynamically") is NOT a
+    parameter of a connection or of a received batch: the code reads `self.max_response_size`
+    inside `item_send_result` / `_send_result`, i.e. every time a result is supplied.  So the limit
+    is part of each completion event: a delivery is (member index, result, the limit in force at
+    that moment; 0 = unlimited), and nothing that is created when a message is *received*
+    (`Item`, `ReqBatch`) contains a limit.  The variant that reads the limit once, when the
+    message is received, is expressible (`snapshot`, `repliesSnapshot`,
+    `repliesSingleSnapshot`) and refuted in `Props.lean`. -/
 namespace Aiorpcx.C02
 open Aiorpcx.C01 (Id)
 
@@ -91,38 +100,53 @@ def receiveBatch {R : Type} (ms : List Mem) : RecvResult R :=
   if r.1.isEmpty && !r.2.1.isEmpty then .errorBatch r.2.1
   else .items r.1 ⟨r.2.1, r.2.2, 0⟩
 
-/-- `item_send_result(request_id, result)` for the request at member index `m` -/
-def sendResult {R : Type} (max inc : Nat) (encLen : Id → R → Nat) (b : ReqBatch R)
-    (m : Nat) (id : Id) (r : R) : ReqBatch R × Option (List (Entry R)) :=
+/-- `item_send_result(request_id, result)` for the request at member index `m`, called while
+    `self.max_response_size` is `lim`: `size > self.max_response_size > 0` is evaluated in this
+    call, with the cumulative size and the limit of this moment -/
+def sendResult {R : Type} (inc : Nat) (encLen : Id → R → Nat) (b : ReqBatch R)
+    (m : Nat) (id : Id) (r : R) (lim : Nat) : ReqBatch R × Option (List (Entry R)) :=
   let size := b.size + encLen id r + inc
-  let part : Entry R := if size > max && max > 0 then .big m id else .res m id r
+  let part : Entry R := if size > lim && lim > 0 then .big m id else .res m id r
   let parts := b.parts ++ [part]
   (⟨parts, b.count, size⟩, if parts.length == b.count then some parts else none)
 
-/-- one delivery: the member whose handler finished, and its result.  No id: the id is the one
-    the item's `send_result` was bound to. -/
-abbrev Call (R : Type) := Nat × R
+/-- one delivery: the member whose handler finished, its result, and the value
+    `max_response_size` has at that moment.  No id: the id is the one the item's `send_result`
+    was bound to. -/
+abbrev Call (R : Type) := Nat × R × Nat
 
 /-- the handlers call `send_result` of their items in the order `calls`; a member that has no
     `send_result` (a notification, or no such member) is never called by the session -/
-def runCalls {R : Type} (max inc : Nat) (encLen : Id → R → Nat) (its : List Item) :
+def runCalls {R : Type} (inc : Nat) (encLen : Id → R → Nat) (its : List Item) :
     ReqBatch R → List (Call R) → List (Option (List (Entry R)))
   | _, [] => []
   | b, c :: cs =>
       match boundId its c.1 with
       | some id =>
-          let r := sendResult max inc encLen b c.1 id c.2
-          r.2 :: runCalls max inc encLen its r.1 cs
-      | none => none :: runCalls max inc encLen its b cs
+          let r := sendResult inc encLen b c.1 id c.2.1 c.2.2
+          r.2 :: runCalls inc encLen its r.1 cs
+      | none => none :: runCalls inc encLen its b cs
 
 /-- every batch message that leaves the connection for one received batch, given the order in
     which the handlers deliver (the session sends a non-`None` return value of `send_result`,
     and the `error_message` of a raised `ProtocolError`) -/
-def replies {R : Type} (max inc : Nat) (encLen : Id → R → Nat) (ms : List Mem)
+def replies {R : Type} (inc : Nat) (encLen : Id → R → Nat) (ms : List Mem)
     (calls : List (Call R)) : List (List (Entry R)) :=
   match receiveBatch (R := R) ms with
   | .errorBatch es => [es]
-  | .items its b => (runCalls max inc encLen its b calls).filterMap id
+  | .items its b => (runCalls inc encLen its b calls).filterMap id
+
+/-! ### the limit read once, when the batch is received (NOT what the code does) -/
+
+/-- a closure over `limit = self.max_response_size` taken in `_receive_request_batch`: every
+    delivery is judged with the limit `lim0` that was in force at receipt, whatever the
+    attribute holds when the result is supplied -/
+def snapshot {R : Type} (lim0 : Nat) (calls : List (Call R)) : List (Call R) :=
+  calls.map fun c => (c.1, c.2.1, lim0)
+
+def repliesSnapshot {R : Type} (lim0 inc : Nat) (encLen : Id → R → Nat) (ms : List Mem)
+    (calls : List (Call R)) : List (List (Entry R)) :=
+  replies inc encLen ms (snapshot lim0 calls)
 
 /-! ### `receive_message` on a list: request batch or response batch?
 
@@ -139,20 +163,22 @@ def isRequestBatch (respLike : List Bool) : Bool := !(respLike.all id)
 
     Each call of `_receive_request_batch` creates its own closure variables, so a connection
     that has received several request batches holds one `(items, ReqBatch)` per batch; a delivery
-    names the batch whose item's `send_result` is called. -/
+    names the batch whose item's `send_result` is called.  `max_response_size` is an attribute of
+    the connection: the limit a delivery carries is the one in force at that moment, for
+    whichever batch it goes to. -/
 
-def runMulti {R : Type} (max inc : Nat) (encLen : Id → R → Nat) :
+def runMulti {R : Type} (inc : Nat) (encLen : Id → R → Nat) :
     List (List Item × ReqBatch R) → List (Nat × Call R) → List (Nat × Option (List (Entry R)))
   | _, [] => []
   | bs, d :: ds =>
       match bs[d.1]? with
-      | none => (d.1, none) :: runMulti max inc encLen bs ds
+      | none => (d.1, none) :: runMulti inc encLen bs ds
       | some ib =>
           match boundId ib.1 d.2.1 with
-          | none => (d.1, none) :: runMulti max inc encLen bs ds
+          | none => (d.1, none) :: runMulti inc encLen bs ds
           | some id =>
-              let r := sendResult max inc encLen ib.2 d.2.1 id d.2.2
-              (d.1, r.2) :: runMulti max inc encLen (bs.set d.1 (ib.1, r.1)) ds
+              let r := sendResult inc encLen ib.2 d.2.1 id d.2.2.1 d.2.2.2
+              (d.1, r.2) :: runMulti inc encLen (bs.set d.1 (ib.1, r.1)) ds
 
 /-! ### a late-binding closure (NOT what the code does; kept to show the theorems exclude it) -/
 
@@ -171,11 +197,11 @@ def lateBind (last : Id) : List Item → List Item
   | .request m _ :: its => .request m last :: lateBind last its
   | .notification m :: its => .notification m :: lateBind last its
 
-def repliesLate {R : Type} (max inc : Nat) (encLen : Id → R → Nat) (ms : List Mem)
+def repliesLate {R : Type} (inc : Nat) (encLen : Id → R → Nat) (ms : List Mem)
     (calls : List (Call R)) : List (List (Entry R)) :=
   match receiveBatch (R := R) ms with
   | .errorBatch es => [es]
-  | .items its b => (runCalls max inc encLen (lateBind (lastLoopId ms .null) its) b calls).filterMap id
+  | .items its b => (runCalls inc encLen (lateBind (lastLoopId ms .null) its) b calls).filterMap id
 
 /-! ### single messages -/
 
@@ -192,18 +218,27 @@ def receiveSingle : Mem → SingleRecv
   | .notif => .item (.notification 0)
   | .invalid id => .errorReply id
 
-/-- `_send_result(request_id, result)`: the reply to a single request -/
-def sendResultSingle {R : Type} (max : Nat) (encLen : Id → R → Nat) (id : Id) (r : R) : Entry R :=
-  if encLen id r > max && max > 0 then .big 0 id else .res 0 id r
+/-- `_send_result(request_id, result)`, called while `self.max_response_size` is `lim`: the
+    reply to a single request (`len(message) > self.max_response_size > 0` is evaluated in this
+    call) -/
+def sendResultSingle {R : Type} (lim : Nat) (encLen : Id → R → Nat) (id : Id) (r : R) : Entry R :=
+  if encLen id r > lim && lim > 0 then .big 0 id else .res 0 id r
 
 /-- every message that leaves the connection for one single message, when the handler of the
-    item (if it is a request) delivers `r` -/
-def repliesSingle {R : Type} (max : Nat) (encLen : Id → R → Nat) (m : Mem) (r : R) :
+    item (if it is a request) delivers `r` while `max_response_size` is `lim`.  What the limit
+    was when the message was *received* is not an input: `receiveSingle` does not read it. -/
+def repliesSingle {R : Type} (encLen : Id → R → Nat) (m : Mem) (r : R) (lim : Nat) :
     List (Entry R) :=
   match receiveSingle m with
   | .errorReply id => [.err 0 id]
-  | .item (.request _ id) => [sendResultSingle max encLen id r]
+  | .item (.request _ id) => [sendResultSingle lim encLen id r]
   | .item (.notification _) => []
+
+/-- the limit read when the request is received (NOT what the code does): the limit `lim` in
+    force when the result is supplied is ignored -/
+def repliesSingleSnapshot {R : Type} (lim0 : Nat) (encLen : Id → R → Nat) (m : Mem) (r : R)
+    (_lim : Nat) : List (Entry R) :=
+  repliesSingle encLen m r lim0
 
 /-! ### specification-side views of a composition -/
 
